@@ -47,8 +47,8 @@ META = {
     "level_note": "Trusted: the session helper (vf/session.py), the rendering of results in vf.session.observe_result.",
 }
 PLAN = {
-    "quick": {"shards": 16, "examples": 160, "timeout": 3000},
-    "thorough": {"shards": 16, "examples": 9000, "timeout": 3000},
+    "quick": {"shards": 16, "examples": 160, "timeout": 3000, "time_budget": 420},
+    "thorough": {"shards": 16, "examples": 9000, "timeout": 3000, "time_budget": 2400},
 }
 
 LOOP_SRC = '''"""C31/C32 helper SUT: terminates unless asked not to (deliberately violates the corpus rule)."""
@@ -78,6 +78,16 @@ class Box:
 
 TYPED = {"test_creation.none_weight": 0, "test_creation.any_weight": 0, "test_creation.negate_type": 0.0,
          "test_creation.use_random_object_for_call": 0.0}
+
+
+def shard(ctx) -> None:
+    """Default driver + a wall-clock budget for case *generation* (never for a verdict): on an overloaded machine the
+    shard stops drawing new cases after ``time_budget`` seconds and says so (``case-budget-cut-by-time`` in the evidence)
+    instead of running into the runner's hard limit."""
+    from vf.hyp import run_cases
+
+    per = max(1, int(ctx.params["examples"]) // ctx.nshards)
+    run_cases(ctx, strategy(ctx), evaluate, per, time_budget=ctx.params.get("time_budget"))
 
 
 def strategy(ctx) -> st.SearchStrategy:
